@@ -1,10 +1,12 @@
 use crate::report::Args;
 
 pub mod c16;
+pub mod mux;
 
 pub fn run(args: &Args) -> i32 {
     match args.prop.as_str() {
         "C16" => c16::run(args),
+        "C01" | "C02" | "C14" => mux::run(args),
         other => {
             eprintln!("unknown property {}", other);
             2
